@@ -147,6 +147,11 @@ def group_enclosed_expressions(tokens: Sequence[Token]) -> TokenTree:
             openers.append((i, token))
 
         elif token.type in (TokenType.CLOSE_BRACKET, TokenType.CLOSE_PARENS):
+            if not openers:
+                raise XPathParsingError(
+                    position=token.position,
+                    message=f"`{token.string}` is never opened.",
+                )
             start_pos, start_token = openers.pop()
 
             if token.type is not COMPLEMENTING_TOKEN_TYPES[start_token.type]:
@@ -212,6 +217,9 @@ def parse_location_step(tokens: TokenTree) -> LocationStep:  # noqa: C901
     node_test: NodeTestNode
     all_tokens = tuple(tokens)
 
+    if not all_tokens:
+        raise XPathParsingError(message="Missing location step.")
+
     # axis
 
     if initial_tokens_match(tokens, (TokenType.NAME, TokenType.AXIS_SEPARATOR)):
@@ -252,7 +260,10 @@ def parse_location_step(tokens: TokenTree) -> LocationStep:  # noqa: C901
         tokens, (TokenType.NAME, TokenType.OPEN_PARENS, None, TokenType.CLOSE_PARENS)
     ):
         assert isinstance(tokens[0], Token)
-        assert tokens[0].string == "processing-instruction"
+        if tokens[0].string != "processing-instruction":
+            raise XPathParsingError(
+                message="Unrecognized node test.", position=tokens[0].position
+            )
         target_name = tokens[2][0]
         assert isinstance(target_name, Token)
         node_test = ProcessingInstructionTest(target_name.string[1:-1])
@@ -262,6 +273,10 @@ def parse_location_step(tokens: TokenTree) -> LocationStep:  # noqa: C901
         tokens, (TokenType.NAME, TokenType.OPEN_PARENS, TokenType.CLOSE_PARENS)
     ):
         assert isinstance(tokens[0], Token)
+        if tokens[0].string not in NODE_TYPE_TEST_MAPPING:
+            raise XPathParsingError(
+                message="Unrecognized node test.", position=tokens[0].position
+            )
         node_test = NodeTypeTest(NODE_TYPE_TEST_MAPPING[tokens[0].string])
         tokens = tokens[3:]
 
@@ -314,9 +329,17 @@ def parse_location_step(tokens: TokenTree) -> LocationStep:  # noqa: C901
 
 
 def parse_evaluation_expression(tokens: TokenTree) -> EvaluationNode:  # noqa: C901
+    if not tokens:
+        raise XPathParsingError(message="Missing expression.")
+
     if all_tokens_match(tokens, (TokenType.NUMBER,)):
         assert isinstance(tokens[0], Token)
-        return AnyValue(int(tokens[0].string))
+        try:
+            return AnyValue(int(tokens[0].string))
+        except ValueError:
+            raise XPathParsingError(
+                position=tokens[0].position, message="Number literal is too long."
+            )
 
     if all_tokens_match(tokens, (TokenType.STRING,)):
         assert isinstance(tokens[0], Token)
@@ -381,7 +404,10 @@ def parse_evaluation_expression(tokens: TokenTree) -> EvaluationNode:  # noqa: C
                 continue
 
             if (token.type, token.string) == _operator:
-                assert 0 < i < len(tokens) - 1
+                if not 0 < i < len(tokens) - 1:
+                    raise XPathParsingError(
+                        position=token.position, message="Missing operand."
+                    )
                 left = parse_evaluation_expression(tokens[:i])
                 right = parse_evaluation_expression(tokens[i + 1 :])
 
